@@ -1,6 +1,6 @@
 (* C12 — shape of the generated cases and the two executable verdicts. No proofs. *)
 From VLib Require Import CaseLib.
-From C12 Require Import Model.
+From C12 Require Import Model Lexer.
 
 Fixpoint ast_eqb (a b : ast) : bool :=
   match a, b with
@@ -54,7 +54,68 @@ Inductive case :=
 (* arbitrary token list (well-formed or not) *)
 | CToks (ts : list tok) (impl : res ast)
 (* propagateNot applied directly to tree t: impl = resulting node, flag *)
-| CProp (t : ast) (impl : ast) (flag : bool).
+| CProp (t : ast) (impl : ast) (flag : bool)
+(* stage 2: raw query bytes fed to the REAL lexer (token dump impl_toks) and to the real ParseSeqQL
+   under a mapping (nilmap / user table / builtin table: field name -> type class as computed by
+   the real indexType); impl = shape of the returned AST (every leaf printed as Leaf 0) or Err.
+   cls = Unicode classes of the runes of this input as Go's unicode package reports them
+   (bit 0 IsSpace, 1 IsLetter, 2 IsDigit, 3 IsNumber): the oracle instance for this case *)
+| CLex (input : bytes) (cls : list (N * N)) (nilmap : bool) (user builtin : list (bytes * N))
+       (impl_toks : list ltok) (impl : res ast)
+(* token list chosen by the generator, rendered to text by the harness (bare / "..." / '...' /
+   `...`, escapes, spaces, comments) and lexed by the real lexer *)
+| CRound (expected : list ltok) (input : bytes) (cls : list (N * N)) (impl_toks : list ltok).
+
+Definition T := mkTok.
+
+Definition ltok_eqb (a b : ltok) : bool :=
+  bytes_eqb (t_txt a) (t_txt b) && Bool.eqb (t_quoted a) (t_quoted b)
+  && Bool.eqb (t_raw a) (t_raw b) && Bool.eqb (t_space a) (t_space b).
+
+Fixpoint lookupN (k : N) (l : list (N * N)) : option N :=
+  match l with
+  | [] => None
+  | (a, b) :: r => if N.eqb a k then Some b else lookupN k r
+  end.
+Fixpoint lookupB (k : bytes) (l : list (bytes * N)) : option N :=
+  match l with
+  | [] => None
+  | (a, b) :: r => if bytes_eqb a k then Some b else lookupB k r
+  end.
+
+(* class oracle of one case: the table dumped from Go; a rune not in the table has no class *)
+Definition cls_bit (tbl : list (N * N)) (bit : N) (r : N) : bool :=
+  match lookupN r tbl with Some m => N.testbit m bit | None => false end.
+
+(* indexType: nil mapping = keyword; user mapping; builtin mapping; otherwise not indexed *)
+Definition mk_ftype (nilmap : bool) (user builtin : list (bytes * N)) (name : bytes) : N :=
+  if nilmap then 1%N
+  else match lookupB name user with
+       | Some t => t
+       | None => match lookupB name builtin with Some t => t | None => 0%N end
+       end.
+
+Definition lex_case (cls : list (N * N)) (input : bytes) : R (list ltok) :=
+  lex (cls_bit cls 0) (cls_bit cls 1) (cls_bit cls 2) input.
+
+Definition parse_case (cls : list (N * N)) (nilmap : bool) (user builtin : list (bytes * N))
+           (input : bytes) : R ast :=
+  seqql_parse (cls_bit cls 0) (cls_bit cls 1) (cls_bit cls 2) (cls_bit cls 3)
+              (mk_ftype nilmap user builtin) input.
+
+Definition toks_agree (m : R (list ltok)) (impl : list ltok) : bool :=
+  match m with ROk l => list_eqb ltok_eqb l impl | _ => false end.
+
+Definition rres_eqb (m : R ast) (impl : res ast) : bool :=
+  match m, impl with
+  | ROk x, Ok y => ast_eqb x y
+  | RErr, Err => true
+  | _, _ => false
+  end.
+
+(* a lexer token that is neither quoted nor empty; only the end token (not listed) is empty *)
+Definition ltok_wf (t : ltok) : bool :=
+  t_quoted t || match t_txt t with [] => false | _ => true end.
 
 Definition render_of (full : bool) (e : expr) := if full then render_full e else render_min e.
 
@@ -66,6 +127,13 @@ Definition case_agrees (c : case) : bool :=
   | CToks ts impl => res_eqb (parse ts) impl
   | CProp t impl flag =>
       let '(m, b) := propagate_not t in ast_eqb m impl && Bool.eqb b flag
+  | CLex input cls nilmap user builtin impl_toks impl =>
+      toks_agree (lex_case cls input) impl_toks
+      && rres_eqb (parse_case cls nilmap user builtin input) impl
+      (* the hypotheses of the totality theorems hold for the dumped classes *)
+      && negb (cls_bit cls 0 RuneError) && negb (cls_bit cls 1 RuneError)
+      && negb (cls_bit cls 2 RuneError)
+  | CRound _ input cls impl_toks => toks_agree (lex_case cls input) impl_toks
   end.
 
 (* implementation output satisfies the property (independent of the model's parser) *)
@@ -81,6 +149,10 @@ Definition case_spec_ok (c : case) : bool :=
   | CProp t impl flag =>
       forallb (fun v => Bool.eqb (eval v (wrap (impl, flag))) (eval v t)) (valuations natoms)
       && no_notb impl
+  | CLex _ _ _ _ _ impl_toks impl =>
+      forallb ltok_wf impl_toks
+      && match impl with Ok t => not_only_at_root t | Err => true | OutOfFuel => false end
+  | CRound expected _ _ impl_toks => list_eqb ltok_eqb expected impl_toks
   end.
 
 Definition diff_indices (l : list case) : list nat := bad_indices (fun c => negb (case_agrees c)) l.
